@@ -99,6 +99,19 @@ func (c *Ctx) histCases(prefix string, behs []string, rng *rand.Rand, settings [
 				cs.Ops = append(cs.Ops, op)
 			}
 			cs.Ops = append(cs.Ops, suffix...)
+			if c.reusePrefix && (i+k)%3 == 2 {
+				// a reused Writer: an earlier stream (abandoned mid-way or closed), then Reset
+				n0 := pick(rng, []int{1, 300, capOf(set) + 17})
+				pre := []Op{{Op: "W", N: n0}}
+				if (i+k)%2 == 0 {
+					pre = append(pre, Op{Op: "C"})
+				}
+				cs.Ops = append(append(pre, Op{Op: "R"}), cs.Ops...)
+				if n0 > total {
+					total = n0
+				}
+				cs.Tag += "|reused"
+			}
 			cs.Data = randData(rng, total)
 			cases = append(cases, cs)
 		}
@@ -138,6 +151,7 @@ func checkC10(c *Ctx) (int, error) {
 		return 0, err
 	}
 	rng := rand.New(rand.NewSource(c.Seed))
+	c.reusePrefix = true
 	cases, err := c.histCases("C10", behs, rng, allWSettings, per, []Op{{Op: "W", N: 1}, {Op: "C"}}, func(h []hop) bool {
 		for _, o := range h {
 			if o.Op == "F" {
@@ -194,6 +208,7 @@ func checkC01(c *Ctx) (int, error) {
 			flateOnly = append(flateOnly, WSetting{Kind: "flate", Level: l, Window: 32768})
 		}
 	}
+	c.reusePrefix = true
 	cases, err := c.histCases("C01", behs, rng, flateOnly, per, []Op{{Op: "C"}}, nil)
 	if err != nil {
 		return 0, err
